@@ -64,7 +64,42 @@ def planted(rng, n):
     return hist
 
 
+def malformed(rng, n):
+    """a loadable-looking history with one defect that is not a cycle: illegal character in an id,
+    a branch label used twice / equal to a revision id, a dangling down-revision or dependency.  The implementation must answer with some error or a consistent map; the model
+    mirrors which (correspondence); the cycle oracle still applies to what is left."""
+    hist = gen_graph.gen_history(rng, n, labels=True, deps=rng.random() < 0.5, shuffle=False)
+    ids = [r["id"] for r in hist]
+    kind = rng.choice(["illegal-id", "dup-label", "label-is-id", "dangling-down", "dangling-dep", "labels-only"])
+    r = rng.choice(hist)
+    if kind == "illegal-id":
+        new = r["id"][:2] + rng.choice("@-+") + r["id"][2:]
+        old = r["id"]
+        r["id"] = new
+        for q in hist:
+            q["down"] = [new if x == old else x for x in q["down"]]
+            q["deps"] = [new if x == old else x for x in q["deps"]]
+    elif kind == "dup-label":
+        a, b = (rng.sample(hist, 2) if len(hist) > 1 else (r, r))
+        a["labels"] = ["dupl"]
+        b["labels"] = list(b["labels"]) + ["dupl"]
+    elif kind == "label-is-id":
+        other = rng.choice(ids)
+        r["labels"] = [other]
+    elif kind == "dangling-down":
+        r["down"] = r["down"][:1] + ["nosuchrev"]
+    elif kind == "dangling-dep":
+        r["deps"] = r["deps"] + ["nosuchrev"]
+    # (a duplicated id is C19's business: the later file replaces the earlier one with a warning)
+    rng.shuffle(hist)
+    return kind, hist
+
+
 def histories(ctx, rng):
+    yield "empty", []
+    for _ in range(3000 if ctx.thorough else 300):
+        kind, h = malformed(rng, rng.randint(1, 7))
+        yield "malformed:" + kind, h
     for n in (1, 2, 3):
         for h in all_digraphs(n):
             yield "exhaustive-%d" % n, h
